@@ -35,6 +35,17 @@ site: http://bugseng.com/products/ppl/ . */
 # include <sys/time.h>
 #endif
 
+#ifdef BUGSENG_PPL_VERIF
+// Verification hook (off unless the library is compiled with -DBUGSENG_PPL_VERIF): a yield point
+// between two statements of the watchdog bookkeeping, where a test harness running on a virtual
+// clock may let time pass and deliver the timer signal.  A null hook does nothing.
+extern "C" void (*ppl_verif_watchdog_yield_hook)(const char* label);
+#define PPL_VERIF_YIELD(label) \
+  do { if (ppl_verif_watchdog_yield_hook != 0) ppl_verif_watchdog_yield_hook(label); } while (0)
+#else
+#define PPL_VERIF_YIELD(label) ((void) 0)
+#endif
+
 namespace Parma_Polyhedra_Library {
 
 // Set linkage now to declare it friend later.
